@@ -1332,6 +1332,17 @@ def _d5(ctx):
         falses = [d for d in ds if d[1] == 'assign' and isinstance(d[0], ast.Constant) and d[0].value is False]
         if len(trues) >= 1 and len(trues) + len(falses) == len(ds):
             cand[k] = (var, trues, falses)
+    # ... or published through a mapping the caller handed in: P['robots_no_follow'] = True
+    out_param = {}
+    for st_ in walk_no_nested(pe.node):
+        if isinstance(st_, ast.Assign) and len(st_.targets) == 1 and isinstance(st_.targets[0], ast.Subscript) \
+                and isinstance(st_.targets[0].value, ast.Name) and st_.targets[0].value.id in pe.params \
+                and isinstance(st_.targets[0].slice, ast.Constant) and isinstance(st_.value, ast.Constant) and isinstance(st_.value.value, bool):
+            k_ = st_.targets[0].slice.value
+            ent = cand.setdefault(k_, ('%s[%r]' % (st_.targets[0].value.id, k_), [], []))
+            if ent[0] == '%s[%r]' % (st_.targets[0].value.id, k_):
+                (ent[1] if st_.value.value else ent[2]).append((st_.value, 'assign', st_))
+                out_param[k_] = pe.params.index(st_.targets[0].value.id)
     flag_key = None
     for k, (var, trues, falses) in cand.items():
         for v, kind, st in trues:
@@ -1421,13 +1432,47 @@ def _d5(ctx):
                'removal cannot be related to it', sc.loc(srs[0]))
         return
     S = sets.pop()
-    metas = [n for n, ds in sdefs.items() for v, kind, st in ds if kind == 'assign' and isinstance(v, ast.Call)
-             and U.attr_name(v) == '_process_elements' and any(isinstance(a, ast.Name) and a.id == S for a in list(v.args) + [k.value for k in v.keywords])]
+    pe_calls = [c for c in U.calls(sc.node) if U.attr_name(c) == '_process_elements'
+                and any(isinstance(a, ast.Name) and a.id == S for a in list(c.args) + [k.value for k in c.keywords])]
+    metas = [n for n, ds in sdefs.items() for v, kind, st in ds if kind == 'assign' and any(v is c for c in pe_calls)]
+    by_return = bool(metas)
+    if not metas and flag_key is not None and flag_key in out_param:
+        # the flag travels in a mapping handed to _process_elements (self is not among the call's arguments)
+        pos = out_param[flag_key] - 1
+        for c in pe_calls:
+            a = c.args[pos] if pos < len(c.args) else next((k.value for k in c.keywords if k.arg == pe.params[pos + 1]), None)
+            if isinstance(a, ast.Name):
+                metas.append(a.id)
     ck.expect(len(set(metas)) == 1, 'C20-D5b', sc.qual, '%s filled by self._process_elements(..., %s)' % (S, S),
               'the set given to ScrapeResult is not the one _process_elements fills', sc.loc())
     if len(set(metas)) != 1:
         return
     M = metas[0]
+    # the flag must survive a parser that fails further down the document (a byte the charset cannot decode): the links
+    # collected so far are kept, so the flag raised so far must be kept too
+    spm = U.parents(sc.node)
+    lost = None
+    for c in pe_calls:
+        for a in U.ancestors(c, spm):
+            if isinstance(a, ast.Try) and any(c is x for b in a.body for x in ast.walk(b)):
+                swallowing = [h for h in a.handlers if not (h.body and isinstance(h.body[-1], ast.Raise))]
+                if not swallowing:
+                    continue
+                if by_return:
+                    lost = 'the flag is the return value of _process_elements: when the element stream raises inside the call the handler ' \
+                           'at line %d goes on without it' % swallowing[0].lineno
+                for h in swallowing:
+                    for x in ast.walk(h):
+                        if isinstance(x, ast.Assign) and any(isinstance(t, ast.Name) and t.id == M for t in x.targets):
+                            lost = 'the handler at line %d replaces %s' % (h.lineno, M)
+                if not by_return:
+                    for v, kind, st in sdefs.get(M, []):
+                        if any(st is x for b in a.body for x in ast.walk(b)) and st.lineno > c.lineno \
+                                and not (v is not None and any(isinstance(x, ast.Name) and x.id == M for x in ast.walk(v))):
+                            lost = '%s is replaced after the call' % M
+    ck.expect(lost is None, 'C20-D5b', sc.qual, 'the no-follow flag raised before a parser failure is still honoured',
+              'a page whose parser fails after the <meta name=robots content=nofollow> element (undecodable byte, parser error) keeps the links '
+              'collected so far but not the flag: %s' % lost, sc.loc(pe_calls[0]) if pe_calls else sc.loc())
     fk = flag_key if flag_key is not None else 'robots_no_follow'
     flag_tests = {"%s.get(%r)" % (M, fk), "%s.get(%r, False)" % (M, fk), "%s.get(%r, None)" % (M, fk), "%s[%r]" % (M, fk),
                   "bool(%s.get(%r))" % (M, fk), "%s.get(%r) is True" % (M, fk), "%s.get(%r) == True" % (M, fk)}
